@@ -1,5 +1,7 @@
 """C14 - computations never modify their inputs; derived continua are independent of their source."""
 import copy as _copy
+import sys
+import threading
 import os
 import tempfile
 
@@ -9,7 +11,7 @@ from .. import cases, monitors
 from . import _align_common as ac
 
 TITLE = "Computations never modify their inputs; derived continua are independent"
-DECIDING = ["M-PURE", "M-INDEPENDENT", "M-PURE-AFTER-FAILURE", "M-PURE-SHARED-COMPONENT", "M-LIVE-CATEGORIES"]
+DECIDING = ["M-PURE", "M-INDEPENDENT", "M-PURE-AFTER-FAILURE", "M-PURE-SHARED-COMPONENT", "M-LIVE-CATEGORIES", "M-PURE-WATCHER"]
 LEVEL = "exploration"
 RULE = ("a case = one random labelled continuum + one pooled dissimilarity; every public computation entry point is "
         "called on it (best / soft / fast alignment, candidate enumeration, compute_gamma in the three modes with both "
@@ -18,7 +20,8 @@ RULE = ("a case = one random labelled continuum + one pooled dissimilarity; ever
         "constructor (with extra categories), corpus_from_reference, each *_shuffle, corpus_shuffle, copy, merge, +, "
         "__getitem__, ==, iteration, to_csv; computations that fail part-way on a unit with an unknown label; computations "
         "with one of two combined dissimilarities that share a component object; a dissimilarity built from the continuum's live category set, the continuum then given new labels) between snapshots (annotators, units, categories, bounds, window size) of "
-        "every continuum argument and (delta_empty, alpha, beta, categories, matrix bytes, kernel identity, components) "
+        "every continuum argument (a reader thread also polls annotators / number of units / categories of the input WHILE the gamma, sampler, "
+        "fast-alignment and window-measure calls run) and (delta_empty, alpha, beta, categories, matrix bytes, kernel identity, components) "
         "of the dissimilarity; then each derived continuum (copy, merge result, + result, sampler outputs, chance "
         "samples of a gamma, generated corpora, c[annotator]) and the source are mutated in turn by a random script "
         "(add with a brand-new label, remove, add_annotator, reset_bounds, in-place merge, an in-place perturbation of the corpus shuffling tool) and the other side is "
@@ -47,12 +50,50 @@ class Pure:
         self.ctx, self.name, self.continua, self.dissims, self.allow_window = ctx, name, list(continua), list(dissims), allow_window
         self.may_raise = may_raise
 
+    @staticmethod
+    def _fingerprint(c):
+        # what another thread reading the continuum through its public attributes sees
+        return (tuple(c.annotators), c.num_units, tuple(c.categories))
+
+    def _watch(self):
+        import time as _t
+        while not self._stop.is_set():
+            for i, c in enumerate(self.continua):
+                try:
+                    fp = self._fingerprint(c)
+                except Exception as e:      # a reader that crashes on a half-modified object has seen the modification too
+                    fp = ("unreadable", type(e).__name__)
+                self.polls += 1
+                if fp != self._fp[i] and self.transient is None:
+                    self.transient = {"argument": i, "seen": [list(map(str, fp[0]))[:6], fp[1]] if fp[0] != "unreadable" else list(fp),
+                                      "was": [list(map(str, self._fp[i][0]))[:6], self._fp[i][1]]}
+            _t.sleep(0.0002)
+
     def __enter__(self):
         self.before_c = [snap(c) for c in self.continua]
         self.before_d = [monitors.snapshot_dissim(d) for d in self.dissims]
+        # a reader thread watches the input continua WHILE the computation runs: "leaves its input as it was" also
+        # holds at every moment another thread may look at it (the library's own worker threads do)
+        self.transient, self.polls = None, 0
+        self._fp = [self._fingerprint(c) for c in self.continua]
+        self._stop = threading.Event()
+        self._watcher = None
+        if self.continua and self.name.startswith(("compute_gamma", "sample_from_continuum", "init_sampling", "get_fast", "measure_best")):
+            self._watcher = threading.Thread(target=self._watch, daemon=True)
+            self._old_switch = sys.getswitchinterval()
+            sys.setswitchinterval(1e-5)
+            self._watcher.start()
         return self
 
     def __exit__(self, et, ev, tb):
+        if self._watcher is not None:
+            self._stop.set()
+            self._watcher.join(5)
+            sys.setswitchinterval(self._old_switch)
+            self.ctx.count("M-PURE-WATCHER")
+            self.ctx.observe("watcher_polls_per_call_log2", self.polls.bit_length())
+            if self.transient is not None:
+                self.ctx.fail(f"input-continuum-transiently-modified-during:{self.name}", self.transient, monitor="M-PURE-WATCHER")
         self.ctx.count("M-PURE")
         self.ctx.observe("entry_point", self.name)
         for i, c in enumerate(self.continua):
@@ -225,7 +266,8 @@ def check_case(ctx, case):
                 pa.ShuffleContinuumSampler(rng.choice(["int_pivot", "float_pivot"]))
             gt = sorted(rng.sample(names, 2)) if (len(names) >= 3 and rng.random() < 0.4) else None
             with P(f"compute_gamma[{mode},{sampler_kind}]", allow_window=(mode == "fast")):
-                res = c.compute_gamma(dissim, n_samples=rng.randint(1, 3), sampler=sampler, ground_truth_annotators=gt,
+                # (more samples when a ground-truth subset is given: more draws for the reader thread to look in on)
+                res = c.compute_gamma(dissim, n_samples=rng.randint(1, 3) if gt is None else rng.randint(6, 12), sampler=sampler, ground_truth_annotators=gt,
                                       fast=mode == "fast", soft=mode == "soft",
                                       precision_level=rng.choice([None, None, 0.5]))
                 results.append(res)
